@@ -124,6 +124,7 @@ def judge_search(doc, resmap, rv, case, expr, sep, run, stats):
     # binding evidence about the mirror (never a verdict): yield order, the search_anchor trace, the printed text
     if order != list(case["mir"]):
         stats["mirror_result_drift"] += 1
+        stats["order_drift_in:" + (case["cls"] or "plain")] += 1
     if [list(x) for x in run["log"]] != [list(x) for x in case["log"]]:
         stats["mirror_trace_drift"] += 1
     for p, i in zip(run["paths"], order):
@@ -555,6 +556,7 @@ def run(ctx):
         "model_drift": tot["info_mismatch"], "deviation_class_cases": tot["devclass_cases"],
         "traces_validated_against_impl": tot["evaluations"],
         "mirror_binding": {"searches_compared": tot["evaluations"], "yield_order_differs": tot["mirror_result_drift"],
+                           "yield_order_differs_by_class": {k[15:]: v for k, v in sorted(tot.items()) if k.startswith("order_drift_in:")},
                            "search_anchor_trace_differs": tot["mirror_trace_drift"], "printed_text_differs": tot["mirror_text_drift"],
                            "model_printed_paths_requeried": tot["reresolutions"], "of_which_unresolved_on_code": tot["model_path_unresolved"]},
         "violation_counts": {k[5:]: v for k, v in sorted(tot.items()) if k.startswith("viol:")},
